@@ -25,6 +25,9 @@ def body_classes():
     return [
         ("nonjson", b"<html>oops</html>"),
         ("invalid_utf8", b"\xff\xfe\x00{"),
+        ("invalid_utf8_latin1_text", b"\x80\x81 not json"),
+        ("invalid_utf8_inside_json", b'{"data": {"a": "\xff"}}'),
+        ("utf16_encoded_json", '{"data": {"a": 1}}'.encode("utf-16")),
         ("empty", b""),
         ("json_number", b"1"),
         ("json_string", b'"data"'),
